@@ -1,6 +1,7 @@
 pub mod lsync {
     pub use lightning_signer::prelude::{Arc, Mutex};
 }
+pub mod approvers;
 pub mod c04;
 pub mod c05;
 pub mod c07;
